@@ -109,6 +109,16 @@ def _r1(ctx: Context, tree: str, N: Names) -> None:
             txt = norm(n.ast)
             if "PoolByteStream(" in txt and "pool_request=pool_request" in txt:
                 return True
+            # the same argument given by position (resolved against the constructor's parameter list)
+            pbs = f.module.classes.get("PoolByteStream")
+            init_ = pbs.methods.get("__init__") if pbs is not None else None
+            if init_ is not None:
+                params_ = [a_.arg for a_ in init_.node.args.args][1:]
+                for c_ in ast.walk(n.ast):
+                    if isinstance(c_, ast.Call) and norm(c_.func) == "PoolByteStream" and "pool_request" in params_:
+                        k_ = params_.index("pool_request")
+                        if len(c_.args) > k_ and norm(c_.args[k_]) == "pool_request":
+                            return True
             # the stream object built in a temporary first
             for c in ast.walk(n.ast):
                 if isinstance(c, ast.Call) and norm(c.func) == "Response":
